@@ -956,6 +956,8 @@ def debug_str_chars(ex, sv):
             out.append(hexd(b & 0xF)); out.append('}')
         else:
             # beyond ASCII: escaped iff not printable or grapheme-extending -- decided with the host's Unicode tables (a model of core::unicode::printable)
+            # code points the host's Unicode tables do not know (unassigned there, possibly assigned in the toolchain's newer tables) are outside the claim
+            ex.assume(z3.Not(z3.Or(*[z3.And(z3.UGE(b, lo), z3.ULE(b, hi)) for lo, hi in category_ranges(['Cn']) if hi >= 0x80])))
             esc = z3.Or(*[z3.And(z3.UGE(b, lo), z3.ULE(b, hi)) for lo, hi in debug_escaped_ranges()])
             if ex.choose([(True, esc), (False, z3.Not(esc))]):
                 nd = ex.choose([(n, z3.And(z3.UGE(b, 1 << (4 * (n - 1))), z3.ULT(b, 1 << (4 * n)))) for n in (2, 3, 4, 5)] + [(6, z3.UGE(b, 1 << 20))])
